@@ -55,6 +55,9 @@ pub enum Adv {
     NextSecond(i64),
     /// to the deadline of logical key k (if it has one) plus delta
     Deadline(u64, i64),
+    /// to the second in which the i-th deadline ever set (also of overwritten, removed or
+    /// cleared entries) comes due for cleanup, plus delta
+    OldDeadline(u8, i64),
 }
 
 #[derive(Clone, Debug, PartialEq, Eq, Serialize, Deserialize, Hash)]
@@ -278,6 +281,7 @@ pub struct Interp<'a> {
     rewritten_after_loss: BTreeSet<u64>,
     lost_once: BTreeSet<u64>,
     lookups_since_clear: u64,
+    all_deadlines: Vec<i64>,
     any_err: bool,
     /// stop evaluating (something voided the rest of the case)
     halted: bool,
@@ -364,6 +368,7 @@ impl<'a> Interp<'a> {
             rewritten_after_loss: BTreeSet::new(),
             lost_once: BTreeSet::new(),
             lookups_since_clear: 0,
+            all_deadlines: Vec::new(),
             any_err: false,
             halted: false,
         })
@@ -1048,6 +1053,8 @@ impl<'a> Interp<'a> {
             }
         }
         self.expect_events("clear: buffer drained", &log, &exp);
+        // the processor then wipes policy, store and metrics
+        self.model_wipe();
     }
 
     fn model_wipe(&mut self) {
@@ -1361,6 +1368,9 @@ impl<'a> Interp<'a> {
             self.desync("insert result differs from model");
             return;
         }
+        if ttl != 0 && ret {
+            self.all_deadlines.push(now + ttl);
+        }
         if ttl != 0 {
             let d = now + ttl;
             if d % NS <= 1_000_000 || NS - d % NS <= 1_000_000 {
@@ -1612,6 +1622,12 @@ impl<'a> Interp<'a> {
         // clear() zeroes the counters (policy admit filter, metrics)
         self.m.m = MMetrics::default();
         self.lookups_since_clear = 0;
+        let (pi, _, _) = self.sut.pending();
+        if pi == 0 {
+            // nothing buffered: if clear() left only its signal queued, the processor consuming
+            // it right away is a legitimate schedule and changes nothing
+            while self.op_proc_clear() {}
+        }
         let (pi, pc, _) = self.sut.pending();
         if pi != 0 || pc != 0 {
             // clear() returned while its signal / older items are still queued: from here only
@@ -1785,6 +1801,19 @@ impl<'a> Interp<'a> {
                 match self.m.store.get(&index).and_then(|e| e.deadline()) {
                     Some(d) if d + delta > now => d + delta,
                     _ => now + 1,
+                }
+            }
+            Adv::OldDeadline(i, delta) => {
+                if self.all_deadlines.is_empty() {
+                    now + 1
+                } else {
+                    let d = self.all_deadlines[(*i as usize) % self.all_deadlines.len()];
+                    let due = (d / NS + 1) * NS + delta;
+                    if due > now {
+                        due
+                    } else {
+                        now + 1
+                    }
                 }
             }
         };
